@@ -467,8 +467,11 @@ def read_event(fsx, o, n, out, *, eid, how="eager", flags=None, with_direct=None
         ev["codes"] = fsx.ramp_codes(d)
         ev["raw"] = []
     else:
-        raw = with_direct if with_direct is not None else fsx.direct(2 * o if fsx.real else o, 2 * n if fsx.real else n)
-        ev["raw"] = fsx.value_codes(raw)
+        try:
+            raw = with_direct if with_direct is not None else fsx.direct(2 * o if fsx.real else o, 2 * n if fsx.real else n)
+            ev["raw"] = fsx.value_codes(raw)
+        except Exception:  # noqa   (a request outside the stream: the specification expects a refusal anyway)
+            ev["raw"] = []
         ev["codes"] = fsx.real_value_codes(d) if fsx.real else fsx.value_codes(d)
     return ev
 
@@ -490,6 +493,16 @@ def expected_post(fsx, raw):
     return z.astype(np.float32 if fsx.kind == "stokes" else np.complex64)
 
 
+# ------------------------------------------------------------------ TLC launches (memory: at most 8 JVMs of 2 GB at a time)
+TLC_SLOTS = threading.BoundedSemaphore(8)
+
+
+def tlc_run(module, cfg, **kw):
+    kw.setdefault("heap", "2g")
+    with TLC_SLOTS:
+        return tlc.run(module, cfg, **kw)
+
+
 # ------------------------------------------------------------------ parallel trace validation
 def validate(module, events, chk, batch=400, jobs=6, timeout=600, name=None, env=None, cfg=None):
     """Like trace_util.validate, but the batches run as concurrent TLC processes
@@ -508,7 +521,7 @@ def validate(module, events, chk, batch=400, jobs=6, timeout=600, name=None, env
             os.remove(vf)
         e = {"TRACE_FILE": tf, "VERDICT_FILE": vf, "_JAVA_OPTIONS": "-XX:ParallelGCThreads=2"}
         e.update(env or {})
-        r = tlc.run(module, cfg or module + ".cfg", workers=1, env=e, timeout=timeout, heap="3g")
+        r = tlc_run(module, cfg or module + ".cfg", workers=1, env=e, timeout=timeout, heap="2g")
         rej, summary = [], None
         if os.path.exists(vf):
             with open(vf) as f:
